@@ -1533,6 +1533,13 @@ def _to_scalar_BlockSeries(
     if isinstance(operator, list):
         operator = _list_to_dict(operator)
     if isinstance(operator, dict):
+        if check_hermitian and any(
+            isinstance(value, (sympy.Expr, sympy.MatrixBase))
+            and value.is_hermitian is False
+            and not value.atoms(Operator)
+            for value in operator.values()
+        ):
+            raise ValueError("Operator must be Hermitian.")
         return _dict_to_BlockSeries(operator, symbols, atol)
     raise TypeError(f"Unsupported input type of Hamiltonian: {type(operator)}.")
 
